@@ -127,3 +127,46 @@ def fanout_sites(prog):
                 if r and r[0] == "ext" and (r[1].startswith("concurrent") or r[1].startswith("multiprocessing")):
                     banned.append((fi, n))
     return sites, banned
+
+
+GENERATOR_CTORS = ("np.random.RandomState", "numpy.random.RandomState", "np.random.default_rng", "numpy.random.default_rng", "np.random.Generator", "random.Random")
+
+
+def shared_generators(prog):
+    """Generator objects that outlive a call -- module-level names, class attributes and parameter defaults bound to
+    RandomState(...) / default_rng(...) / random.Random(...) -- and every use of them inside a function.  A draw from such an object
+    depends on how many draws happened earlier in the process, whatever its seed: the result is no longer a function of the
+    arguments.  Returns [(FuncInfo, use node, generator description)]."""
+    out = []
+    for mname, m in prog.modules.items():
+        shared = {}
+        for st in m.tree.body:
+            if isinstance(st, ast.Assign) and isinstance(st.value, ast.Call) and norm(st.value.func) in GENERATOR_CTORS:
+                for t in st.targets:
+                    if isinstance(t, ast.Name):
+                        shared[t.id] = f"module-level {t.id} = {norm(st.value)[:50]}"
+            if isinstance(st, ast.ClassDef):
+                for cs in st.body:
+                    if isinstance(cs, ast.Assign) and isinstance(cs.value, ast.Call) and norm(cs.value.func) in GENERATOR_CTORS:
+                        for t in cs.targets:
+                            if isinstance(t, ast.Name):
+                                shared[f"{st.name}.{t.id}"] = f"class attribute {st.name}.{t.id} = {norm(cs.value)[:50]}"
+        for fi in prog.functions.values():
+            if fi.mod != mname:
+                continue
+            local = dict(shared)
+            a = fi.node.args
+            pos = a.posonlyargs + a.args
+            for arg, d in list(zip(pos[len(pos) - len(a.defaults):], a.defaults)) + [(x, d) for x, d in zip(a.kwonlyargs, a.kw_defaults) if d is not None]:
+                if isinstance(d, ast.Call) and norm(d.func) in GENERATOR_CTORS:
+                    local[arg.arg] = f"default of parameter {arg.arg} = {norm(d)[:50]} (evaluated once)"
+            if not local:
+                continue
+            rebound = {t.id for n in own_nodes(fi.node) if isinstance(n, ast.Assign) for t in n.targets if isinstance(t, ast.Name)}
+            for n in own_nodes(fi.node):
+                if isinstance(n, ast.Call) and isinstance(n.func, ast.Attribute):
+                    base = norm(n.func.value)
+                    key = base if base in local else (base.split(".", 1)[1] if base.startswith(("self.", "cls.")) and base.split(".", 1)[1] in {k.split(".")[-1] for k in local} else None)
+                    if base in local and base not in rebound:
+                        out.append((fi, n, local[base]))
+    return out
